@@ -56,6 +56,8 @@ def functions_assignments(repo: Repo) -> List[Tuple[str, ast.AST, ast.expr]]:
                 for t in n.targets:
                     if isinstance(t, ast.Attribute) and t.attr == "functions":
                         out.append((q, n, n.value))
+            if isinstance(n, ast.AnnAssign) and n.value is not None and isinstance(n.target, ast.Attribute) and n.target.attr == "functions":
+                out.append((q, n, n.value))
     return out
 
 
@@ -175,7 +177,31 @@ def check(repo: Repo, run: Run) -> None:
             run.inconclusive("C14.F2", q, why)
         else:
             run.ob("C14.F2", f"{q}|{ast.unparse(val)[:40]}", verdict, f"{q}: {why}", ev.loc(node))
-    run.floor("C14.F2", n2, 4)
+    run.floor("C14.F2", n2, 2)
+    # the built-in table is shared by every program of the process: nothing may be written into it, neither directly
+    # nor through a ChainMap whose FIRST layer it is (ChainMap writes go to the first layer)
+    MUT = ("update", "setdefault", "pop", "popitem", "clear", "__setitem__", "__delitem__")
+    for q, fn in ev.functions():
+        first_base = set()
+        for n in ast.walk(fn):
+            if isinstance(n, (ast.Assign, ast.AnnAssign)) and n.value is not None:
+                v = strip_cast(n.value)
+                if isinstance(v, ast.Call) and (dotted(v.func) or "").split(".")[-1] == "ChainMap" and v.args and dotted(strip_cast(v.args[0])) == "base_functions":
+                    for t in (n.targets if isinstance(n, ast.Assign) else [n.target]):
+                        if dotted(t):
+                            first_base.add(dotted(t))
+        for n in ast.walk(fn):
+            tgt = None
+            if isinstance(n, ast.Call) and isinstance(n.func, ast.Attribute) and n.func.attr in MUT:
+                tgt = dotted(n.func.value)
+            if isinstance(n, (ast.Assign, ast.Delete)):
+                for t in n.targets:
+                    if isinstance(t, ast.Subscript):
+                        tgt = dotted(t.value)
+            if tgt and (tgt == "base_functions" or tgt in first_base):
+                run.ob("C14.F2", f"{q}|writes base_functions", False,
+                       f"{q}: `{ast.unparse(n)[:60]}` writes into base_functions" + ("" if tgt == "base_functions" else f" (through `{tgt}`, a ChainMap whose first layer is base_functions)")
+                       + ": the supplied function replaces the built-in for every program of the process, not for this program only", ev.loc(n))
     init = ev.func("Activation.__init__")
     s = ast.unparse(init)
     run.shape("C14.F2", "Activation.__init__|list form", "f.__name__: f for f in functions" in s, "a list of callables is keyed by each callable's __name__", ev.loc(init))
